@@ -218,13 +218,14 @@ def bandlimited_rms(r, psd, wllow=None, wlhigh=None, flow=None, fhigh=None):
     default_max = r.max()
     if wllow is not None or wlhigh is not None:
         # spatial period given
+        # the short period bounds the band from above, the long one from below
         if wllow is None:
-            flow = 0
+            fhigh = default_max
         else:
             fhigh = 1 / wllow
 
         if wlhigh is None:
-            fhigh = default_max
+            flow = 0
         else:
             flow = 1 / wlhigh
     elif flow is not None or fhigh is not None:
